@@ -11,7 +11,7 @@ import (
 func init() { register("C17", c17) }
 
 func c17(p *an.Prog, r *an.R, tier string) {
-	r.Explanation = "C17 (structural clauses): (R1) setTombstone and JsonMarshalRepoMetaTemp report every failure of the calls that make the tombstone take effect (marshal, temp file, chmod, write, rename); (R2) in indexData.Search/List every write of repository-derived data into the result is reached only on paths where that repository's Tombstone flag was tested false, and file matches only where the path is not in FileTombstones; (R3) merge and explode skip tombstoned repositories before copying documents. Does NOT decide idempotence, isolation or reload survival of set/unset histories."
+	r.Explanation = "C17 (structural clauses): (R1) setTombstone and JsonMarshalRepoMetaTemp report every failure of the calls that make the tombstone take effect (marshal, temp file, chmod, write, rename); (R2) in indexData.Search/List every write of repository-derived data into the result is reached only on paths where that repository's Tombstone flag was tested false, and file matches only where the path is not in FileTombstones; (R3) merge and explode skip tombstoned repositories before copying documents. (R5) setTombstone stores the requested flag for every record with the requested id and for no other. Does NOT decide idempotence, isolation or reload survival of set/unset histories."
 	r.Rule("C17.R1", "every error returned by a call in setTombstone / JsonMarshalRepoMetaTemp is tested and, when non-nil, returned (error discipline on the CFG)")
 	r.Rule("C17.R2", "every result sink in indexData.Search/List with repository-derived data is guarded on all feasible paths by repo.Tombstone==false for the same repository index; SearchResult.Files additionally by the FileTombstones lookup")
 	r.Rule("C17.R3", "in index.merge/explode the call addDocument is reachable only on paths where the source repository's Tombstone flag was tested false")
